@@ -39,8 +39,9 @@ func HPrime(t uint32, a []byte) []byte {
 }
 
 // gb is the BlaMka quarter round GB of RFC 9106 §3.6.
+func mul(x, y uint64) uint64 { return 2 * uint64(uint32(x)) * uint64(uint32(y)) }
+
 func a2gb(v *[16]uint64, a, b, c, d int) {
-	mul := func(x, y uint64) uint64 { return 2 * uint64(uint32(x)) * uint64(uint32(y)) }
 	v[a] = v[a] + v[b] + mul(v[a], v[b])
 	v[d] = rotr64(v[d]^v[a], 32)
 	v[c] = v[c] + v[d] + mul(v[c], v[d])
@@ -71,6 +72,22 @@ func a2P(r *a2block, idx [16]int) {
 	}
 }
 
+// index tables for P: rows are registers 8i..8i+7 = words 16i..16i+15; columns are
+// registers i, i+8, ..., i+56 = words (16k+2i, 16k+2i+1), k = 0..7.
+var a2RowIdx, a2ColIdx [8][16]int
+
+func init() {
+	for i := 0; i < 8; i++ {
+		for k := 0; k < 16; k++ {
+			a2RowIdx[i][k] = 16*i + k
+		}
+		for k := 0; k < 8; k++ {
+			a2ColIdx[i][2*k] = 16*k + 2*i
+			a2ColIdx[i][2*k+1] = 16*k + 2*i + 1
+		}
+	}
+}
+
 // A2G is the compression function G(X, Y) of RFC 9106 §3.5.
 func A2G(x, y *[128]uint64) [128]uint64 {
 	var r a2block
@@ -78,22 +95,11 @@ func A2G(x, y *[128]uint64) [128]uint64 {
 		r[i] = x[i] ^ y[i]
 	}
 	q := r
-	// rows: registers 8i..8i+7 = words 16i..16i+15
 	for i := 0; i < 8; i++ {
-		var idx [16]int
-		for k := range idx {
-			idx[k] = 16*i + k
-		}
-		a2P(&q, idx)
+		a2P(&q, a2RowIdx[i])
 	}
-	// columns: registers i, i+8, ..., i+56 = words (16k+2i, 16k+2i+1)
 	for i := 0; i < 8; i++ {
-		var idx [16]int
-		for k := 0; k < 8; k++ {
-			idx[2*k] = 16*k + 2*i
-			idx[2*k+1] = 16*k + 2*i + 1
-		}
-		a2P(&q, idx)
+		a2P(&q, a2ColIdx[i])
 	}
 	var out [128]uint64
 	for i := range out {
